@@ -711,10 +711,13 @@ def main():
         from translate_leaves import emit_leaves  # noqa
 
         nl = emit_leaves(outdir)
+        from translate_keys import emit_keys  # noqa
+
+        nk = emit_keys(outdir)
     except TranslateError as e:
         print(str(e))
         sys.exit(2)
-    print(f"translate: {nr} parser rules, {nc} instruction classes, {nl} leaf functions -> {outdir}")
+    print(f"translate: {nr} parser rules, {nc} instruction classes, {nl} leaf functions, {nk} key/index classification functions -> {outdir}")
 
 
 if __name__ == "__main__":
